@@ -39,10 +39,13 @@ def source(c, split=False):
     g = "<T>" if c["trigger"] == "generic_param" else ""
     base = "#[typeshare]\npub struct Gen<X> { pub g: X }\n#[typeshare]\npub enum Color { Red, Green }\n"
     pos = c["pos"]
+    # MC_C12!Names: the member's own name (f) and its neighbour's (k)
+    nm = c.get("name", "plain")
+    f_, k_ = {"plain": ("f", "k"), "py_keyword": ("from", "k"), "renamed": ('#[serde(rename = "wire-name")] f', "k"), "kw_all": ("from", "pass")}[nm]
     if pos == "field":
-        host = f"#[typeshare]\npub struct Host{g} {{ pub f: {t}, pub k: u32 }}\n"
+        host = f"#[typeshare]\npub struct Host{g} {{ pub {f_}: {t}, pub {k_}: u32 }}\n".replace("pub #[serde", "#[serde").replace('")] f:', '")] pub f:')
     elif pos == "field_default":     # the optional marker comes from serde(default), not from the type
-        host = f"#[typeshare]\npub struct Host{g} {{ #[serde(default)] pub f: {t}, pub k: u32 }}\n"
+        host = f"#[typeshare]\npub struct Host{g} {{ #[serde(default)] pub {f_}: {t}, pub {k_}: u32 }}\n".replace("pub #[serde", "#[serde").replace('")] f:', '")] pub f:')
     elif pos == "vfield_default":
         host = f'#[typeshare]\n#[serde(tag = "t", content = "c")]\npub enum Host{g} {{ Sv {{ #[serde(default)] f: {t}, k: u32 }}, U }}\n'
     elif pos == "garg_pos":
@@ -50,7 +53,7 @@ def source(c, split=False):
     elif pos == "payload":
         host = f'#[typeshare]\n#[serde(tag = "t", content = "c")]\npub enum Host{g} {{ Pay({t}), U }}\n'
     elif pos == "vfield":
-        host = f'#[typeshare]\n#[serde(tag = "t", content = "c")]\npub enum Host{g} {{ Sv {{ f: {t}, k: u32 }}, U }}\n'
+        host = f'#[typeshare]\n#[serde(tag = "t", content = "c")]\npub enum Host{g} {{ Sv {{ {f_}: {t}, {k_}: u32 }}, U }}\n'
     else:
         host = f"#[typeshare]\npub type Host{g} = {t};\n"
     other = ""
